@@ -18,6 +18,11 @@ TRUSTED_COMMON = [
 def lean_step(res, prop_module, thorough=False, extra_allowed=(), extra_targets=()):
     """Build the property module(s) and the driver, audit them.  A failure is a violation with
     no failing input (the caller may add a search)."""
+    with vlib.lean_lock():
+        return _lean_step(res, prop_module, thorough, extra_allowed, extra_targets)
+
+
+def _lean_step(res, prop_module, thorough=False, extra_allowed=(), extra_targets=()):
     # tie T first, always: the generated modules must reflect /repo's CURRENT headers before anything is built
     if not getattr(res, "_regenerated", False):
         regenerate(res)
@@ -26,7 +31,7 @@ def lean_step(res, prop_module, thorough=False, extra_allowed=(), extra_targets=
         ok = True
         acc = {"obligations": 0, "discharged": 0, "theorems": [], "axioms_used": set(), "cmds": []}
         for m in prop_module:
-            ok = lean_step(res, m, thorough, extra_allowed, extra_targets) and ok
+            ok = _lean_step(res, m, thorough, extra_allowed, extra_targets) and ok
             acc["obligations"] += res.cov.get("obligations", 0)
             acc["discharged"] += res.cov.get("discharged", 0)
             acc["theorems"] += res.cov.get("theorems", [])
@@ -38,6 +43,7 @@ def lean_step(res, prop_module, thorough=False, extra_allowed=(), extra_targets=
     ok = True
     try:
         vlib.lake_build([prop_module, "cdsdriver"] + list(extra_targets))
+        vlib._driver_copy = None        # the driver may have been relinked: take a fresh private copy on next use
     except vlib.LeanError as e:
         res.cov.setdefault("obligations", 1)
         res.cov.setdefault("discharged", 0)
@@ -173,7 +179,8 @@ def regenerate(res):
     """Tie T: regenerate CdsVerif/Gen from /repo's current headers.  A function that can no longer be
     translated is a violation without failing input (the property is no longer shown)."""
     import cxx2lean
-    man, errors, changed = cxx2lean.generate(vlib.REPO, vlib.LEAN)
+    with vlib.lean_lock():
+        man, errors, changed = cxx2lean.generate(vlib.REPO, vlib.LEAN)
     res.cov["translated_functions"] = len(man)
     res.cov["translation_changed_since_last_run"] = bool(changed)
     for e in errors:
